@@ -24,6 +24,7 @@ var allInvalid = []string{
 	model.InvBadRange, model.InvBadConfig,
 	model.InvDevMissing, model.InvDevAddDefault, model.InvDevDelDefault, model.InvDevDelOther,
 	model.InvDevMinNonList, model.InvDevDelMin, model.InvDevBadType, model.InvDevUnknownKind,
+	model.InvFanoutChain,
 }
 
 // profGeneral mixes everything; used by C05, C18, C01 and the C04 rotation.
@@ -55,6 +56,10 @@ func profGeneral(t *tape.Tape) model.Profile {
 	if t.Chance(1, 6) {
 		p.UsesHeavy = true
 	}
+	if t.Chance(1, 3) {
+		p.PrefixTraps = true
+	}
+	p.CrossDeviationTrap = true
 	return p
 }
 
